@@ -17,7 +17,8 @@ REAL = ["Dispatcher.dispatch/reset/subscribe/unsubscribe/create_or_get_observer"
 STUB = ["recording observer subclasses defined by the harness (peers)"]
 ASSUMPTIONS = ["re-entrant (un)subscription from inside update() and subscribing one object twice through raw subscribe() are out of scope"]
 
-CHURN = ["new_single", "new_multi", "new_other", "new_history", "unsub", "resub", "dup_single", "cog", "bad_feature_observer", "new_subsingle"]
+CHURN = ["new_single", "new_multi", "new_other", "new_history", "unsub", "resub", "dup_single", "cog", "bad_feature_observer", "new_subsingle", "new_uns"]
+SILENT = ("history", "uns")  # library observers: they do not write to the callback log
 
 
 def generate(seed, tier):
@@ -96,9 +97,9 @@ class H(Hooks):
         rc = rec_classes()
         ctx, d = w.ctx, w.disp
         ctx.fault("subscription_churn:" + action)
-        if action in ("new_single", "new_multi", "new_other", "new_history", "dup_single", "new_subsingle"):
-            kind = {"new_single": "single", "new_multi": "multi", "new_other": "other", "new_history": "history", "dup_single": "single", "new_subsingle": "subsingle"}[action]
-            singleton_clash = kind in ("single", "other", "history", "subsingle") and bool(self.subscribed_of(kind))
+        if action in ("new_single", "new_multi", "new_other", "new_history", "dup_single", "new_subsingle", "new_uns"):
+            kind = {"new_single": "single", "new_multi": "multi", "new_other": "other", "new_history": "history", "dup_single": "single", "new_subsingle": "subsingle", "new_uns": "uns"}[action]
+            singleton_clash = kind in ("single", "other", "history", "subsingle", "uns") and bool(self.subscribed_of(kind))
             # a refinement constructed while only its base type is subscribed: the statement does not say which
             # of the two readings of "type" applies, so either outcome is taken as it comes
             free = kind == "subsingle" and not singleton_clash and any(self.kind[t] == "single" for t in self.subscribed)
@@ -111,6 +112,11 @@ class H(Hooks):
                     from job_shop_lib.dispatching import HistoryObserver
 
                     o = HistoryObserver(d, subscribe=sub)
+                    o.tag = tag
+                elif kind == "uns":
+                    from job_shop_lib.dispatching import UnscheduledOperationsObserver
+
+                    o = UnscheduledOperationsObserver(d, subscribe=sub)
                     o.tag = tag
                 else:
                     o = rc[kind](d, subscribe=sub, tag=tag, sink=self.sink, peek=peek)
@@ -146,7 +152,7 @@ class H(Hooks):
             self.subscribed.remove(tag)
             return tag
         if action == "resub":
-            cands = [t for t in self.objs if t not in self.subscribed and not (self.kind[t] != "multi" and (self.subscribed_of(self.kind[t]) or any(self.isa(self.kind[t], self.kind[u]) for u in self.subscribed)))]
+            cands = [t for t in self.objs if t not in self.subscribed and self.kind[t] != "uns" and not (self.kind[t] != "multi" and (self.subscribed_of(self.kind[t]) or any(self.isa(self.kind[t], self.kind[u]) for u in self.subscribed)))]
             if not cands:
                 return "skip"
             tag = cands[a % len(cands)]
@@ -203,7 +209,7 @@ class H(Hooks):
     def on_reset(self, w):
         w.do_reset()
         init = model_peek(w.model)
-        self.expect_log(w, [("reset", t, init) for t in self.subscribed if self.kind[t] != "history"], "reset()")
+        self.expect_log(w, [("reset", t, init) for t in self.subscribed if self.kind[t] not in SILENT], "reset()")
         for t in self.subscribed:
             if self.kind[t] == "history":
                 self.hist_expect[t] = []
@@ -213,12 +219,12 @@ class H(Hooks):
         if kind == "dispatch":
             o, mm, (s, e) = info
             post = model_peek(w.model)
-            self.expect_log(w, [("update", t, o.operation_id, mm, s, post) for t in self.subscribed if self.kind[t] != "history"],
+            self.expect_log(w, [("update", t, o.operation_id, mm, s, post) for t in self.subscribed if self.kind[t] not in SILENT],
                             f"dispatch of op {o.operation_id} on m{mm}")
             for t in self.subscribed:
                 if self.kind[t] == "history":
                     self.hist_expect[t].append((o.operation_id, mm, s))
-            if len([t for t in self.subscribed if self.kind[t] != "history"]) >= 2:
+            if len([t for t in self.subscribed if self.kind[t] not in SILENT]) >= 2:
                 ctx.probe("dispatch_with_2plus_recorders")
         elif kind == "obs":
             self.expect_log(w, [], f"churn op {i}")
